@@ -1,4 +1,5 @@
 import BrushVerif.Proofs.FlowRefine
+import BrushVerif.Model.ParamOps
 /-!
 # C03 — `set -e` (errexit), its exempt contexts, `pipefail` and `inherit_errexit`
 
@@ -827,5 +828,75 @@ example :
     exec 3 [] false (.leaf 1 [0, 4]) { counts := [(1, 1)], errexit := true } =
       some ({ counts := [(1, 2)], trace := [.m 1], last := 4, errexit := true }, { code := 4, flow := .exit }) := by
   refine ⟨by decide +kernel, by decide +kernel⟩
+
+
+/-! ## nounset: which expansions of an unset parameter abort (model: `Model/ParamOps.lean`, the
+`expand_parameter_expr` arms also used by C06) -/
+
+section Nounset
+open BrushVerif.ParamOps
+
+/-- a parameter that has no value: `v`, `a[i]`, `$n` unset -/
+def UnsetParam : Param → Prop
+  | .named none => True
+  | .elem none _ => True
+  | .pos none => True
+  | _ => False
+
+/-- **`set -u` rejects** plain, substring and prefix/suffix-removal expansions of an unset parameter,
+whatever the operands and patterns. -/
+theorem nounset_rejects_unset_value_uses (p : Param) (hp : UnsetParam p) (m : List Char → Bool)
+    (off : Int) (len : Option Int) (k : RmKind) (hasPat : Bool) :
+    (expandExpr p true m .plain).res = .err ∧
+    (expandExpr p true m (.sub off len)).res = .err ∧
+    (expandExpr p true m (.rm k hasPat)).res = .err := by
+  cases p with
+  | named v => cases v <;> simp [UnsetParam] at hp <;> simp [expandExpr, expandParam, undefinedExpansion]
+  | elem v ex => cases v <;> simp [UnsetParam] at hp <;> simp [expandExpr, expandParam, undefinedExpansion]
+  | pos v => cases v <;> simp [UnsetParam] at hp <;> simp [expandExpr, expandParam, undefinedExpansion]
+  | all vals star => simp [UnsetParam] at hp
+  | posAll args star => simp [UnsetParam] at hp
+
+/-- **`set -u` tolerates** `${v-w}`, `${v:-w}`, `${v+w}`, `${v:+w}`, `${v=w}`, `${v:=w}` on every
+parameter: the unset-parameter error is never raised by them (`=` on a positional parameter fails for
+its own reason, with or without `-u`). -/
+theorem nounset_tolerates_default_and_alternative (p : Param) (m : List Char → Bool) (colon : Bool) (w : List Char) :
+    (expandExpr p true m (.test .useDefault colon w)).res = (expandExpr p false m (.test .useDefault colon w)).res ∧
+    (expandExpr p true m (.test .useAlternative colon w)).res = (expandExpr p false m (.test .useAlternative colon w)).res ∧
+    (expandExpr p true m (.test .assignDefault colon w)).res = (expandExpr p false m (.test .assignDefault colon w)).res ∧
+    (expandExpr p true m (.test .errorIfUnset colon w)).res = (expandExpr p false m (.test .errorIfUnset colon w)).res := by
+  cases p with
+  | named v => cases v <;> simp [expandExpr, expandParam, undefinedExpansion]
+  | elem v ex => cases v <;> simp [expandExpr, expandParam, undefinedExpansion]
+  | pos v => cases v <;> simp [expandExpr, expandParam, undefinedExpansion]
+  | all vals star => simp [expandExpr, expandParam]
+  | posAll args star => simp [expandExpr, expandParam]
+
+/-- **Without `-u` nothing is rejected for being unset**: the plain expansion of any parameter succeeds. -/
+theorem without_nounset_unset_is_empty (p : Param) (m : List Char → Bool) :
+    ∃ e, (expandExpr p false m .plain).res = .ok e := by
+  cases p with
+  | named v => cases v <;> simp [expandExpr, expandParam, undefinedExpansion]
+  | elem v ex => cases v <;> simp [expandExpr, expandParam, undefinedExpansion]
+  | pos v => cases v <;> simp [expandExpr, expandParam, undefinedExpansion]
+  | all vals star => simp [expandExpr, expandParam]
+  | posAll args star => simp [expandExpr, expandParam]
+
+/-- `$@`, `$*`, `a[@]`, `a[*]` are never "unset" for `-u`, even with no elements. -/
+theorem nounset_accepts_empty_lists (star : Bool) (m : List Char → Bool) :
+    (∃ e, (expandExpr (.posAll [] star) true m .plain).res = .ok e) ∧
+    (∃ e, (expandExpr (.all [] star) true m .plain).res = .ok e) := by
+  simp [expandExpr, expandParam]
+
+/-- Recorded finding C03-1 in the model: `${#v[@]}` of a variable with no elements is accepted under
+`-u` (bash rejects it when `v` is unset). -/
+theorem nounset_array_length_tolerated_cex (m : List Char → Bool) :
+    ∃ e, (expandExpr (.all [] false) true m .len).res = .ok e := by
+  simp [expandExpr, expandParam]
+
+example : UnsetParam (.named none) ∧ (expandExpr (.named none) true (fun _ => false) .plain).res = .err := by
+  simp [UnsetParam, expandExpr, expandParam, undefinedExpansion]
+
+end Nounset
 
 end BrushVerif.C03
